@@ -37,6 +37,8 @@ fn tok_profile(profile: &str, seed: u64, n: usize, out: &mut dyn Write) {
                 cfg.kind = if rng.chance(1, 2) { None } else { Some(0) };
                 cfg.max_ids = 6;
             }
+            // many connection ids: the sort of compute_probs works on slices past the small-sort threshold, with many ties
+            "c13" if rng.chance(1, 5) => cfg.max_ids = *rng.pick(&[34usize, 48, 70, 130]),
             "mixed" => cfg.kind = None,
             _ => {}
         }
@@ -192,7 +194,18 @@ fn tok_profile(profile: &str, seed: u64, n: usize, out: &mut dyn Write) {
                                 let bad = crng.chance(1, 8);
                                 let nl = if bad { d.num_left + 1 } else { d.num_left };
                                 let nrows = 1 + crng.below(4);
-                                let csv = gen::gen_lex_rows(&mut crng, nrows, nl, d.num_right, 40, true, &mut pool);
+                                let mut csv = gen::gen_lex_rows(&mut crng, nrows, nl, d.num_right, 40, true, &mut pool);
+                                if crng.chance(1, 6) {
+                                    // structural rows (empty surface, short row, lone quote …), mostly at the end
+                                    let rows = [",0,0,0,x", ",0,0,0,", "", ",", "a,0", "a,0,0,0", ",0,0", "\"a", ",1"];
+                                    for _ in 0..1 + crng.below(2) {
+                                        csv.push_str(rows[crng.below(rows.len())]);
+                                        csv.push('\n');
+                                    }
+                                    if crng.chance(1, 2) {
+                                        csv.pop();
+                                    }
+                                }
                                 dops.push(DOp::User(csv.into_bytes()));
                             }
                             2 => dops.push(DOp::UserNone),
@@ -374,6 +387,23 @@ fn corrupt(rng: &mut Rng, d: &mut gen::DictSrc) -> String {
             }
             bytes = (lines.join("\n") + "\n").into_bytes();
             label = "id-at-connector-boundary";
+        }
+        15 if which == 0 || which == 3 => {
+            // structural rows of the csv dialect: empty surfaces (skipped by the parser), short rows, lone quotes,
+            // rows of commas; one to three of them, mostly at the end of the file, with or without a final newline
+            let text = String::from_utf8_lossy(&bytes).to_string();
+            let mut lines: Vec<String> = text.lines().map(|l| l.to_string()).collect();
+            let rows = [",0,0,0,x", ",0,0,0,", "", ",", ",,,,", "a,0", "a,0,0", "a,0,0,0", ",0,0", "\"a", "b,0,0,0,\"q", ",1", ",0,0,0,x,y"];
+            for _ in 0..1 + rng.below(3) {
+                let at = if rng.chance(2, 3) { lines.len() } else { rng.below(lines.len() + 1) };
+                lines.insert(at, rows[rng.below(rows.len())].to_string());
+            }
+            let mut b = lines.join("\n").into_bytes();
+            if rng.chance(1, 2) {
+                b.push(b'\n');
+            }
+            bytes = b;
+            label = "csv-structural-rows";
         }
         13 if which == 2 => {
             let extra = *rng.pick(&[
